@@ -8,10 +8,12 @@ FLOAT_KINDS = {'sweepc', 'sweeps', 'transpose', 'consurf-u', 'consurf-v', 'convo
 FLOAT_TOL = 1e-9
 STATS = G.STATS
 PARTIAL = [
-    "boundary sections of a sweep / of extract_* are proved at the level of nets, degrees and knot vectors "
-    "(extracting the first/last section returns the input / its translate); that the boundary iso-curve or "
-    "iso-surface of a clamped shape is the curve/surface of its boundary net slice (end-point interpolation, C18) "
-    "is checked by the exact oracle only",
+    "boundary sections: proved at the level of nets, degrees and knot vectors (sweep_*_sections) AND of evaluated "
+    "points (surface_boundary_u/v_is_extracted_curve, volume_boundary_is_extracted_surface, sweep_curve/surface_"
+    "boundary_points: at a clamped domain end the iso-curve / iso-surface is the first / last extracted curve / "
+    "surface; the two end sections of a sweep are the input and its translate) for NON-RATIONAL evaluation "
+    "(curvePoint / surfacePoint / volumePoint on the stored points); for rational shapes the statement holds for "
+    "the homogeneous points before the division by the weight, the projected form is not stated",
     "the ctrlpts/weights split-and-recombine that construct_* and sweep_vector perform on rational shapes is "
     "modelled as the identity on homogeneous points (exact for non-zero weights; the arithmetic belongs to C09); "
     "sweep_rational_point proves that the homogeneous point map used for sweeps projects to the translate",
